@@ -721,10 +721,58 @@ pub fn check_execution(p: &Prepared, out: &Outcome) -> Quiescent {
             let tot: usize = keys.iter().map(|k| footprint_of(f, k)).sum();
             if tot > m {
                 fs.push(TFinding { property: "C18", monitor: format!("{flav}/{pol}/over-memory-at-quiescence"), detail: format!("{} holds {:?} = {tot} bytes with max_memory {m}", f.fn_name, keys) });
+                fs.push(TFinding { property: "C05", monitor: format!("{flav}/{pol}/over-memory-after-concurrent-stores"), detail: format!("every caller has returned and {} holds {:?} = {tot} bytes with max_memory {m}", f.fn_name, keys) });
             }
         }
         if f.is_result || f.has_cache_if || f.has_inval_on {
             continue;
+        }
+        // recency probe (LRU with an entry limit): use every stored key once, in a known order; store the keys the
+        // threads touched that are absent now; then overflow. From the first step on the recency order is fixed
+        // by this sequential continuation alone, so every victim is known exactly — whatever the threads did. A
+        // queue slot left behind by a race (for an absent key, or a second slot for a stored one) shows as a victim
+        // that was used more recently than another entry.
+        if let (Pol::Lru, Some(nl), None, None) = (f.pol(), f.limit, f.mem, f.ttl) {
+            let mut ghost: Vec<u32> = Vec::new(); // least recently used first
+            let mut listed: Vec<u32> = keys.iter().filter_map(|k| k.parse().ok()).collect();
+            listed.sort();
+            let mut touched: BTreeSet<u32> = BTreeSet::new();
+            for o in d.threads.iter().flatten().chain(d.setup.iter().filter_map(|s| if let SOp::Op(o) = s { Some(o) } else { None })) {
+                if let TOp::Call { f: ff, k } = o {
+                    if *ff == f.id {
+                        touched.insert(*k);
+                    }
+                }
+            }
+            let absent: Vec<u32> = touched.iter().copied().filter(|k| !listed.contains(k)).collect();
+            let mut steps: Vec<u32> = listed.clone();
+            steps.extend(absent.iter().copied());
+            steps.extend((0..=nl as u32).map(|i| 40 + i));
+            let mut ok = true;
+            let warm = listed.len();
+            for (si, k) in steps.into_iter().enumerate() {
+                let _ = (f.call)(k);
+                ghost.retain(|x| *x != k);
+                ghost.push(k);
+                while ghost.len() > nl {
+                    ghost.remove(0);
+                }
+                let mut now: Vec<u32> = l1::list_keys(f.name).unwrap_or_default().iter().filter_map(|x| x.parse().ok()).collect();
+                now.sort();
+                let mut want = ghost.clone();
+                want.sort();
+                // (while the stored keys are still being used one by one nothing is evicted and the order is not yet known)
+                if si + 1 >= warm && now != want && ok {
+                    ok = false;
+                    let det = format!("{}: after the threads returned the cache held {:?}; sequential continuation (use every stored key, store {:?}, then fresh keys): after call {k} it holds {:?}, least-recently-used order says {:?}", f.fn_name, listed, absent, now, want);
+                    fs.push(TFinding { property: "C18", monitor: format!("{flav}/{pol}/recency-probe-wrong-victim"), detail: det.clone() });
+                    fs.push(TFinding { property: "C07", monitor: format!("{flav}/{pol}/wrong-victim-after-concurrent-operations"), detail: det.clone() });
+                    if evicting {
+                        fs.push(TFinding { property: "C13", monitor: format!("{flav}/{pol}/eviction-order-wrong-after-concurrent-invalidation"), detail: det });
+                    }
+                }
+            }
+            // leave the cache as the remaining probes expect it: nothing from before the probe
         }
         // probe: 2N fresh stores must flush every pre-probe entry (FIFO/LRU), bounds hold after each
         let cap = f.limit.or(f.mem.map(|m| m / footprint_of(f, "20").max(1)));
@@ -732,11 +780,19 @@ pub fn check_execution(p: &Prepared, out: &Outcome) -> Quiescent {
             let pre: BTreeSet<String> = keys.iter().cloned().collect();
             for i in 0..(2 * n as u32) {
                 let k = 20 + i;
+                let before = l1::list_keys(f.name).unwrap_or_default();
                 let r = (f.call)(k);
                 if r != Ret::Plain(l1::value(f.id, k, 0)) {
                     fs.push(TFinding { property: "C18", monitor: format!("{flav}/{pol}/probe-wrong-value"), detail: format!("probe call {}({k}) returned {}", f.fn_name, r.render()) });
                 }
                 let now = l1::list_keys(f.name).unwrap_or_default();
+                // a store into a cache that is not full removes nothing and is itself kept
+                if let (Some(nl), None) = (f.limit, f.mem) {
+                    if before.len() < nl && (!now.contains(&k.to_string()) || before.iter().any(|b| !now.contains(b))) {
+                        fs.push(TFinding { property: "C18", monitor: format!("{flav}/{pol}/probe-store-into-non-full-cache-lost"), detail: format!("{} held {:?} (limit {nl}); after the probe call {}({k}) it holds {:?}", f.fn_name, before, f.fn_name, now) });
+                        fs.push(TFinding { property: "C04", monitor: format!("{flav}/{pol}/store-into-non-full-cache-removed-entries"), detail: format!("after the threads returned {} held {:?} (limit {nl}); the next call {}({k}) left {:?}", f.fn_name, before, f.fn_name, now) });
+                    }
+                }
                 if let Some(nl) = f.limit {
                     if now.len() > nl {
                         fs.push(TFinding { property: "C18", monitor: format!("{flav}/{pol}/probe-over-limit"), detail: format!("after probe store {k}: {} holds {:?} with limit {nl}", f.fn_name, now) });
@@ -773,11 +829,64 @@ pub fn check_execution(p: &Prepared, out: &Outcome) -> Quiescent {
             fs.push(TFinding { property: "C18", monitor: format!("{flav}/{pol}/entry-not-invalidatable"), detail: format!("{}: {:?} left after invalidating everything", f.fn_name, left) });
         }
     }
+    // ---- C12, cold start: whatever raced during the first calls, every cache that has been used is registered
+    // under all of its tags / events / dependencies once its first call has returned
+    if p.cold {
+        let used: Vec<&&'static FnInfo> = p
+            .funcs
+            .iter()
+            .filter(|f| f.flavour != Flavour::Thread && f.has_meta() && (events.iter().any(|e| matches!(&e.op, TOp::Call { f: ff, .. } if *ff == f.id)) || d.setup.iter().any(|s| matches!(s, SOp::Op(TOp::Call { f: ff, .. }) if *ff == f.id))))
+            .collect();
+        let mut asked: BTreeSet<(&'static str, &'static str)> = BTreeSet::new();
+        for f in &used {
+            for t in f.tags {
+                asked.insert(("tag", *t));
+            }
+            for t in f.events {
+                asked.insert(("event", *t));
+            }
+            for t in f.deps {
+                asked.insert(("dependency", *t));
+            }
+        }
+        for (kind, name) in asked {
+            let declares = |f: &FnInfo| match kind {
+                "tag" => f.tags.contains(&name),
+                "event" => f.events.contains(&name),
+                _ => f.deps.contains(&name),
+            };
+            for f in used.iter().filter(|f| declares(f)) {
+                let _ = (f.call)(1);
+            }
+            let n = match kind {
+                "tag" => cachelito_core::invalidate_by_tag(name),
+                "event" => cachelito_core::invalidate_by_event(name),
+                _ => cachelito_core::invalidate_by_dependency(name),
+            };
+            let want = used.iter().filter(|f| declares(f)).count();
+            if n != want {
+                fs.push(TFinding { property: "C12", monitor: format!("{flav}/used-cache-not-registered-under-its-{kind}"), detail: format!("after every first call has returned, invalidate_by_{kind}({name:?}) returned {n}; {want} used caches declare it ({:?})", used.iter().filter(|f| declares(f)).map(|f| f.fn_name).collect::<Vec<_>>()) });
+            }
+            for f in used.iter().filter(|f| declares(f)) {
+                let left = l1::list_keys(f.name).unwrap_or_default();
+                if !left.is_empty() {
+                    fs.push(TFinding { property: "C12", monitor: format!("{flav}/used-cache-not-emptied-by-its-{kind}"), detail: format!("after every first call has returned, invalidate_by_{kind}({name:?}) left {:?} in {}", left, f.fn_name) });
+                }
+            }
+        }
+    }
     // ---- L0: store vs queue
     if let Some(c) = &d.l0 {
         let s = seqx::make_subject::<String>(c).snap();
         obs.push_str(&format!("|store={:?} queue={:?}", s.store.keys().collect::<Vec<_>>(), s.order));
         let q: BTreeSet<&String> = s.order.iter().collect();
+        if let Some(m) = c.max_memory {
+            let tot: usize = s.store.values().map(|e| e.footprint).sum();
+            if tot > m {
+                fs.push(TFinding { property: "C18", monitor: format!("{flav}/{pol}/over-memory-at-quiescence"), detail: format!("store holds {tot} bytes with max_memory {m}") });
+                fs.push(TFinding { property: "C05", monitor: format!("{flav}/{pol}/over-memory-after-concurrent-stores"), detail: format!("every operation has completed and the store holds {:?} = {tot} bytes with max_memory {m}", s.store.keys().collect::<Vec<_>>()) });
+            }
+        }
         let untracked: Vec<&String> = s.store.keys().filter(|k| !q.contains(k)).collect();
         if !untracked.is_empty() {
             fs.push(TFinding { property: "C18", monitor: format!("{flav}/{pol}/stored-but-untracked"), detail: format!("store holds {:?} that the order queue {:?} does not know", untracked, s.order) });
@@ -922,6 +1031,8 @@ fn interleavings(threads: &[Vec<TOp>]) -> Vec<Vec<TOp>> {
 }
 
 static SEQ_EQ_SEEN: Mutex<BTreeMap<String, Option<String>>> = Mutex::new(BTreeMap::new());
+/// (distinct final states judged, continuations run from them and from the sequential references, sequential orders tried)
+pub static SEQ_EQ_STATS: Mutex<(u64, u64, u64)> = Mutex::new((0, 0, 0));
 
 /// The state the threads left behind must behave, under every continuation of `depth` further sequential
 /// operations, like the state some sequential order of the same operations leaves behind — possibly with
@@ -962,6 +1073,11 @@ fn sequential_equivalent(d: &Driver, c: &Config) -> Option<String> {
     }
     let depth = if alpha.len() <= 8 { 4 } else { 3 };
     let conc = continuations(&*subj, &saved, now, &alpha, depth);
+    {
+        let mut st = SEQ_EQ_STATS.lock().unwrap();
+        st.0 += 1;
+        st.1 += conc.len() as u64;
+    }
     let conc_keys: BTreeSet<String> = snap.store.keys().cloned().collect();
     let mut tried = Vec::new();
     let mut verdict: Option<String> = None;
@@ -990,6 +1106,11 @@ fn sequential_equivalent(d: &Driver, c: &Config) -> Option<String> {
         subj.forget(&missing);
         let saved_ref = subj.save();
         let r = continuations(&*subj, &saved_ref, now, &alpha, depth);
+        {
+            let mut st = SEQ_EQ_STATS.lock().unwrap();
+            st.1 += r.len() as u64;
+            st.2 += 1;
+        }
         if r == conc {
             matched = true;
             break;
@@ -1312,6 +1433,56 @@ pub fn drivers_for(property: &str, thorough: bool) -> Vec<Driver> {
                 }
             }
         }
+        "C13" => {
+            // a lookup or a store overlapping with an invalidation of the same key: afterwards limits and eviction order
+            // behave as if the removed entries had never been stored (judged by the recency probe and the bound probes)
+            for fl in [Flavour::Global, Flavour::Async] {
+                for f in conc(fl).into_iter().filter(|f| f.limit == Some(2) && f.ttl.is_none() && f.mem.is_none()) {
+                    let full = vec![SOp::Op(call(f, 1)), SOp::Op(call(f, 2))];
+                    let invs: Vec<(&str, TOp)> = vec![
+                        ("invalidate_with", TOp::InvWith { f: f.id, mask: 0b0010 }),
+                        ("invalidate_all_with", TOp::InvAllWith { f: f.id, mask: 0b0010 }),
+                        ("by_tag", TOp::ByTag("t".into())),
+                        ("invalidate_cache", TOp::InvCache { f: f.id }),
+                    ];
+                    for (n, inv) in &invs {
+                        push(format!("{}:hit~{}", f.fn_name, n), full.clone(), vec![vec![call(f, 1)], vec![inv.clone()]], None, false);
+                        push(format!("{}:hit other~{}", f.fn_name, n), full.clone(), vec![vec![call(f, 2)], vec![inv.clone()]], None, false);
+                        push(format!("{}:store~{}", f.fn_name, n), vec![SOp::Op(call(f, 1))], vec![vec![call(f, 3)], vec![inv.clone()]], None, false);
+                        if thorough {
+                            push(format!("{}:hit, hit~{}", f.fn_name, n), full.clone(), vec![vec![call(f, 1), call(f, 2)], vec![inv.clone()]], None, false);
+                        }
+                    }
+                }
+            }
+        }
+        "C05" => {
+            // the memory bound also holds once concurrent stores have completed
+            for fl in [Flavour::Global, Flavour::Async] {
+                for f in conc(fl).into_iter().filter(|f| f.mem.is_some() && f.ttl.is_none()) {
+                    push(format!("{}:store~store", f.fn_name), vec![], vec![vec![call(f, 2)], vec![call(f, 3)]], None, false);
+                    push(format!("{}:store~store when full", f.fn_name), vec![SOp::Op(call(f, 1)), SOp::Op(call(f, 4))], vec![vec![call(f, 2)], vec![call(f, 3)]], None, false);
+                    push(format!("{}:store~store same key when full", f.fn_name), vec![SOp::Op(call(f, 1)), SOp::Op(call(f, 4))], vec![vec![call(f, 2)], vec![call(f, 2)]], None, false);
+                    push(format!("{}:two stores~hit", f.fn_name), vec![SOp::Op(call(f, 1)), SOp::Op(call(f, 4))], vec![vec![call(f, 2), call(f, 3)], vec![call(f, 1)]], None, false);
+                    push(format!("{}:oversized~store", f.fn_name), vec![SOp::Op(call(f, 1))], vec![vec![call(f, 9)], vec![call(f, 2)]], None, false);
+                    if thorough {
+                        push(format!("{}:3 stores", f.fn_name), vec![SOp::Op(call(f, 1)), SOp::Op(call(f, 4))], vec![vec![call(f, 2)], vec![call(f, 3)], vec![call(f, 5)]], None, false);
+                    }
+                }
+            }
+            // the engines themselves: budget for two of the 32-byte values
+            for fl in [Flavour::Global, Flavour::Async] {
+                for pol in [Pol::Fifo, Pol::Lru, Pol::Lfu] {
+                    let cfg = Config { flavour: fl, policy: pol, limit: None, ttl: None, max_memory: Some(70), fw: None, vtype: "String" };
+                    let lbl = |s: &str| format!("L0:{}/{}/mem=70:{}", fl.name(), pol.name(), s);
+                    let full = vec![SOp::Op(TOp::L0Put(0, 0)), SOp::Op(TOp::L0Put(1, 0))];
+                    push(lbl("evicting put~evicting put"), full.clone(), vec![vec![TOp::L0Put(2, 0)], vec![TOp::L0Put(3, 0)]], Some(cfg.clone()), false);
+                    push(lbl("hit~evicting put"), full.clone(), vec![vec![TOp::L0Get(0)], vec![TOp::L0Put(2, 0)]], Some(cfg.clone()), false);
+                    push(lbl("re-store~evicting put"), full.clone(), vec![vec![TOp::L0Put(0, 1)], vec![TOp::L0Put(2, 0)]], Some(cfg.clone()), false);
+                    push(lbl("put~put from empty"), vec![], vec![vec![TOp::L0Put(0, 0), TOp::L0Put(1, 0)], vec![TOp::L0Put(2, 0)]], Some(cfg.clone()), false);
+                }
+            }
+        }
         "C07" | "C08" => {
             // engine-level races at a full cache; what the threads leave behind must evict, under every continuation
             // of four further sequential operations, like the cache some sequential order of the same operations leaves
@@ -1391,6 +1562,16 @@ pub fn drivers_for(property: &str, thorough: bool) -> Vec<Driver> {
                 push(format!("{}:store then read elsewhere", f.fn_name), vec![], vec![vec![call(f, 1)], vec![call(f, 1)]], None, false);
                 push(format!("{}:two keys crossing", f.fn_name), vec![], vec![vec![call(f, 1), call(f, 2)], vec![call(f, 2), call(f, 1)]], None, false);
                 push(format!("{}:3 threads", f.fn_name), vec![], vec![vec![call(f, 1)], vec![call(f, 1), call(f, 2)], vec![call(f, 2)]], None, false);
+            }
+            // two callers that both missed store the same key one after the other while a third thread looks it up:
+            // the second store must not make the entry disappear for a moment (every policy has its own store path)
+            for fl in [Flavour::Global, Flavour::Async] {
+                for f in conc(fl).into_iter().filter(|f| f.limit.is_none() && f.ttl.is_none() && f.mem.is_none()) {
+                    push(format!("{}:same key x3", f.fn_name), vec![], vec![vec![call(f, 1)], vec![call(f, 1)], vec![call(f, 1)]], None, false);
+                    if thorough {
+                        push(format!("{}:same key, twice + once + once", f.fn_name), vec![], vec![vec![call(f, 1), call(f, 1)], vec![call(f, 1)], vec![call(f, 1)]], None, false);
+                    }
+                }
             }
         }
         "C03" => {
